@@ -25,9 +25,24 @@
 (*   draw[seed] \in BOOLEAN               the heartbeat draw               *)
 (* Every call made by any member, with any order and repetition of the     *)
 (* operators in its local view, must be explainable by these.              *)
+(*                                                                         *)
+(* THE EXECUTOR IS A LONG-LIVED OBJECT: node.getCoordinationExecutor keeps *)
+(* one coordinationExecutor per wallet in node.coordinationExecutors and   *)
+(* every window of that wallet is coordinated on the same instance.  A     *)
+(* member that restarted, joined late or skipped a window has an instance  *)
+(* with a different call history.  The model therefore has executor        *)
+(* instances (NewExecutor binds the wallet and the member's view of its    *)
+(* operators), every call is made ON an instance and is recorded with its  *)
+(* position in that instance's history; the results must not depend on     *)
+(* that history (LeaderHistoryIndependent, ...).                           *)
+(* Stateless = TRUE is the contract (the three functions are pure).        *)
+(* Stateless = FALSE is the hazard grain of an executor that caches its    *)
+(* sorted unique operator list and lets rng.Shuffle permute the cached     *)
+(* slice in place: the next selection starts from the order the previous   *)
+(* ones left behind.                                                       *)
 (* Operators are integers whose order is the order of their addresses.     *)
 (***************************************************************************)
-EXTENDS Naturals, Sequences, FiniteSets, SequencesExt
+EXTENDS Naturals, Sequences, FiniteSets, SequencesExt, TLC
 
 CONSTANTS Ops,        \* operators (integers, address order)
           MaxList,    \* longest operator list
@@ -35,12 +50,17 @@ CONSTANTS Ops,        \* operators (integers, address order)
           CallSeeds,  \* seeds the model passes to getLeader / getActionsChecklist (bounds the search)
           F,          \* coordinationFrequencyBlocks
           Blocks,     \* coordination blocks passed to the checklist
-          MaxCalls
+          MaxCalls,
+          Execs,      \* executor instances
+          Stateless   \* TRUE: contract; FALSE: hazard grain (cached list shuffled in place)
 
 VARIABLES seedOf, pick, draw,  \* hidden choices (partial functions)
+          permOf,              \* hazard grain: the whole permutation per <<seed, n>>
+          execs,               \* e -> [w, ops, n]: wallet, view of its operators, calls made so far
+          cache,               \* hazard grain: e -> current order of the cached unique operators
           hist                 \* set of call records made so far
 
-vars == <<seedOf, pick, draw, hist>>
+vars == <<seedOf, pick, draw, permOf, execs, cache, hist>>
 
 FRange(f) == {f[x] : x \in DOMAIN f}
 Extend(f, k, v) == [x \in DOMAIN f \cup {k} |-> IF x = k THEN v ELSE f[x]]
@@ -53,6 +73,8 @@ SortSet(S) == IF S = {} THEN <<>>
               ELSE LET m == CHOOSE x \in S : \A y \in S : x <= y IN <<m>> \o SortSet(S \ {m})
 SortedUnique(list) == SortSet(Range(list))
 
+Perms(n) == {f \in [1..n -> 1..n] : \A i, j \in 1..n : i # j => f[i] # f[j]}
+
 \* coordinationWindow.index()
 Index(b) == IF b % F = 0 THEN b \div F ELSE 0
 
@@ -62,49 +84,84 @@ Checklist(idx, hb) ==
          \o (IF idx % 4 = 0 THEN <<"DepositSweep", "MovedFundsSweep", "MovingFunds">> ELSE <<>>)
          \o (IF hb THEN <<"Heartbeat">> ELSE <<>>)
 
-Init == seedOf = <<>> /\ pick = <<>> /\ draw = <<>> /\ hist = {}
+Init == /\ seedOf = <<>> /\ pick = <<>> /\ draw = <<>> /\ permOf = <<>>
+        /\ execs = <<>> /\ cache = <<>> /\ hist = {}
 
 Budget == Cardinality(hist) < MaxCalls
-Record(r) == Budget /\ hist' = hist \cup {r}
+\* a call on executor e is recorded with its position in e's history
+Record(e, r) ==
+    /\ Budget
+    /\ e \in DOMAIN execs
+    /\ hist' = hist \cup {r @@ [e |-> e, pos |-> execs[e].n + 1]}
+    /\ execs' = [execs EXCEPT ![e].n = @ + 1]
 
-\* getSeed for wallet w when the safe block (coordination block - 32) has hash h
-GetSeed(w, h, s) ==
-    /\ LET k == <<w, h>> IN
+\* node.getCoordinationExecutor: a member creates the executor of wallet w with
+\* its view `list` of the wallet's operators (signingGroupOperators)
+NewExecutor(e, w, list) ==
+    /\ e \notin DOMAIN execs
+    /\ execs' = Extend(execs, e, [w |-> w, ops |-> list, n |-> 0])
+    /\ cache' = Extend(cache, e, SortedUnique(list))
+    /\ UNCHANGED <<seedOf, pick, draw, permOf, hist>>
+
+\* getSeed on executor e when the safe block (coordination block - 32) has hash h
+GetSeed(e, h, s) ==
+    /\ e \in DOMAIN execs
+    /\ LET k == <<execs[e].w, h>> IN
          /\ IF k \in DOMAIN seedOf THEN seedOf[k] = s ELSE s \notin FRange(seedOf)
          /\ seedOf' = Extend(seedOf, k, s)
-    /\ Record([kind |-> "seed", w |-> w, h |-> h, out |-> s])
-    /\ UNCHANGED <<pick, draw>>
+    /\ Record(e, [kind |-> "seed", w |-> execs[e].w, h |-> h, out |-> s])
+    /\ UNCHANGED <<pick, draw, permOf, cache>>
 
 \* getSeed when the chain cannot return the safe block hash
-GetSeedFails(w) ==
-    /\ Record([kind |-> "seedError", w |-> w])
-    /\ UNCHANGED <<seedOf, pick, draw>>
+GetSeedFails(e) ==
+    /\ e \in DOMAIN execs
+    /\ Record(e, [kind |-> "seedError", w |-> execs[e].w])
+    /\ UNCHANGED <<seedOf, pick, draw, permOf, cache>>
 
-\* getLeader with the member's local view `list` of the wallet's operators
-GetLeader(s, list, r) ==
-    /\ LET su == SortedUnique(list)
+\* getLeader on executor e (contract: a pure function of the seed and the view)
+GetLeader(e, s, r) ==
+    /\ Stateless
+    /\ e \in DOMAIN execs
+    /\ LET su == SortedUnique(execs[e].ops)
            k == <<s, Len(su)>> IN
          /\ r \in 1..Len(su)
          /\ (k \in DOMAIN pick) => pick[k] = r
          /\ pick' = Extend(pick, k, r)
-         /\ Record([kind |-> "leader", s |-> s, ops |-> list, out |-> su[r]])
-    /\ UNCHANGED <<seedOf, draw>>
+         /\ Record(e, [kind |-> "leader", s |-> s, ops |-> execs[e].ops, out |-> su[r]])
+    /\ UNCHANGED <<seedOf, draw, permOf, cache>>
+
+\* hazard grain: the seed's shuffle is applied IN PLACE to the executor's cached list
+GetLeaderCached(e, s, pm) ==
+    /\ ~Stateless
+    /\ e \in DOMAIN execs
+    /\ LET cur == cache[e]
+           k == <<s, Len(cur)>> IN
+         /\ pm \in Perms(Len(cur))
+         /\ (k \in DOMAIN permOf) => permOf[k] = pm
+         /\ permOf' = Extend(permOf, k, pm)
+         /\ cache' = [cache EXCEPT ![e] = [i \in 1..Len(cur) |-> cur[pm[i]]]]
+         /\ Record(e, [kind |-> "leader", s |-> s, ops |-> execs[e].ops, out |-> cur[pm[1]]])
+    /\ UNCHANGED <<seedOf, pick, draw>>
 
 \* coordinate(): getActionsChecklist(window.index(), seed) for the window at block b
-GetChecklist(s, b, hb) ==
+GetChecklist(e, s, b, hb) ==
+    /\ e \in DOMAIN execs
     /\ IF Index(b) = 0
           THEN UNCHANGED draw      \* returns nil before the PRNG is touched
           ELSE /\ (s \in DOMAIN draw) => draw[s] = hb
                /\ draw' = Extend(draw, s, hb)
-    /\ Record([kind |-> "checklist", s |-> s, b |-> b, idx |-> Index(b), out |-> Checklist(Index(b), hb)])
-    /\ UNCHANGED <<seedOf, pick>>
+    /\ Record(e, [kind |-> "checklist", s |-> s, b |-> b, idx |-> Index(b), out |-> Checklist(Index(b), hb)])
+    /\ UNCHANGED <<seedOf, pick, permOf, cache>>
 
-DoGetSeed      == \E w \in Wallets, h \in Hashes, s \in Seeds : GetSeed(w, h, s)
-DoGetSeedFails == \E w \in Wallets : GetSeedFails(w)
-DoGetLeader    == \E s \in CallSeeds, list \in Lists, r \in 1..Cardinality(Ops) : GetLeader(s, list, r)
-DoGetChecklist == \E s \in CallSeeds, b \in Blocks, hb \in BOOLEAN : GetChecklist(s, b, hb)
+DoNewExecutor     == \E e \in Execs, w \in Wallets, list \in Lists : NewExecutor(e, w, list)
+DoGetSeed         == \E e \in Execs, h \in Hashes, s \in Seeds : GetSeed(e, h, s)
+DoGetSeedFails    == \E e \in Execs : GetSeedFails(e)
+DoGetLeader       == \E e \in Execs, s \in CallSeeds, r \in 1..Cardinality(Ops) : GetLeader(e, s, r)
+DoGetLeaderCached == \E e \in Execs, s \in CallSeeds, pm \in UNION {Perms(n) : n \in 1..Cardinality(Ops)} :
+                        GetLeaderCached(e, s, pm)
+DoGetChecklist    == \E e \in Execs, s \in CallSeeds, b \in Blocks, hb \in BOOLEAN : GetChecklist(e, s, b, hb)
 
-Next == DoGetSeed \/ DoGetSeedFails \/ DoGetLeader \/ DoGetChecklist
+Next == DoNewExecutor \/ DoGetSeed \/ DoGetSeedFails \/ DoGetLeader \/ DoGetLeaderCached \/ DoGetChecklist
 Spec == Init /\ [][Next]_vars
 
 ---------------------------------------------------------------------------
@@ -118,6 +175,15 @@ LeaderIsOperator == \A c \in Calls("leader") : c.out \in Range(c.ops)
 LeaderIgnoresOrderAndRepetition ==
     \A c1, c2 \in Calls("leader") :
         (c1.s = c2.s /\ Range(c1.ops) = Range(c2.ops)) => c1.out = c2.out
+
+\* C22 on long-lived executors: the leader for a seed does not depend on which
+\* and how many calls the executor served before (members with different
+\* histories agree), and asking the same executor again gives the same answer
+LeaderHistoryIndependent ==
+    \A c1, c2 \in Calls("leader") :
+        (c1.s = c2.s /\ c1.ops = c2.ops /\ (c1.e # c2.e \/ c1.pos # c2.pos)) => c1.out = c2.out
+LeaderIdempotent ==
+    \A c1, c2 \in Calls("leader") : (c1.e = c2.e /\ c1.s = c2.s) => c1.out = c2.out
 
 \* the shuffle depends only on the seed and the number of unique operators
 Rank(c) == CHOOSE i \in 1..Len(SortedUnique(c.ops)) : SortedUnique(c.ops)[i] = c.out
@@ -141,14 +207,19 @@ ChecklistShape ==
 HeartbeatBySeedOnly ==
     \A c1, c2 \in Calls("checklist") :
         (c1.s = c2.s /\ c1.idx > 0 /\ c2.idx > 0) => (HasHeartbeat(c1) <=> HasHeartbeat(c2))
-ChecklistDeterministic ==
+\* ... on whatever executor and at whatever point of its history it is asked
+ChecklistHistoryIndependent ==
     \A c1, c2 \in Calls("checklist") : (c1.s = c2.s /\ c1.idx = c2.idx) => c1.out = c2.out
 
-\* C22: the seed is a function of the wallet and the safe block hash, nothing else
-SeedDeterministic ==
+\* C22: the seed is a function of the wallet and the safe block hash, nothing
+\* else (not the executor, not its history)
+SeedHistoryIndependent ==
     \A c1, c2 \in Calls("seed") : (c1.w = c2.w /\ c1.h = c2.h) <=> (c1.out = c2.out)
 
 TypeOK ==
     /\ \A k \in DOMAIN pick : pick[k] \in 1..k[2]
     /\ \A s \in DOMAIN draw : draw[s] \in BOOLEAN
+
+\* bookkeeping (model checking only: the trace specification forgets old records)
+ExecCounts == \A e \in DOMAIN execs : execs[e].n = Cardinality({c \in hist : c.e = e})
 =============================================================================
